@@ -5,6 +5,7 @@ use crate::value::{DynObject, ObjectRepr, Tuple, Value, ValueKind, ValueRepr};
 const MIN_I128_AS_POS_U128: u128 = 170141183460469231731687303715884105728;
 const MAX_REPEATED_STRING_LEN: usize = 100_000_000;
 const MAX_REPEATED_TUPLE_LEN: usize = 10_000_000;
+const MAX_REPEATED_SEQ_LEN: usize = 10_000_000;
 
 /// Iterator wrapper that provides exact size hints for iterators with known length.
 pub(crate) struct LenIterWrap<I: Send + Sync>(pub(crate) usize, pub(crate) I);
@@ -435,12 +436,17 @@ fn repeat_iterable(n: &Value, seq: &DynObject) -> Result<Value, Error> {
             "cannot repeat unsized iterables",
         )
     }));
-    let total_len = ok!(len.checked_mul(n).ok_or_else(|| {
-        Error::new(
-            ErrorKind::InvalidOperation,
-            "repeated sequence is too large",
-        )
-    }));
+    // the lazy result reports this length, and whatever collects it (list,
+    // sort, batch, reverse, ...) reserves that much up front.
+    let total_len = ok!(len
+        .checked_mul(n)
+        .filter(|&total_len| total_len <= MAX_REPEATED_SEQ_LEN)
+        .ok_or_else(|| {
+            Error::new(
+                ErrorKind::InvalidOperation,
+                "repeated sequence is too large",
+            )
+        }));
 
     if let Some(tuple) = seq.downcast_ref::<Tuple>() {
         // tuples repeat eagerly, so the size has to stay allocatable
